@@ -5,7 +5,8 @@
      expr  (constructors Value Var Add Sub Mul Div DivCeil Max Min Broadcast Neg)
            [Var id pos]: symbol number [id : N] (harness: name "a" = 0, "b" = 1, ...; the map is
            order preserving, so [str::cmp] on names is [N.compare] on ids), [pos] = declared >= 0.
-     res   (Ok z | EDivZero | EMissing | EOvf | EBcast)      outcome of an evaluation
+     res   (Ok z | EDivZero | EMissing | EOvf | EBcast | EPos)   outcome of an evaluation
+           (EBcast, EPos: violated preconditions; only produced by the proof-internal evalR)
      env := N -> option Z,  env_of_list : list (N * Z) -> env
      evalm (w : bool) : env -> expr -> res   SymExpr::eval; w = true: release build (i32 wraps,
            EOvf = the `MIN / -1` panic), w = false: overflow-checked build (EOvf = overflow panic)
@@ -35,7 +36,7 @@ Inductive expr :=
 | Broadcast (a b : expr)
 | Neg (a : expr).
 
-Inductive res := Ok (z : Z) | EDivZero | EMissing | EOvf | EBcast.
+Inductive res := Ok (z : Z) | EDivZero | EMissing | EOvf | EBcast | EPos.
 
 Definition env := N -> option Z.
 Fixpoint env_of_list (l : list (N * Z)) : env :=
@@ -269,6 +270,18 @@ Fixpoint sub_free (e : expr) : bool :=
       sub_free a && sub_free b
   end.
 
+(* SymExpr::is_positive *)
+Fixpoint is_positive (e : expr) : bool :=
+  match e with
+  | Value x => 0 <=? x
+  | Var _ p => p
+  | Neg _ => false
+  | Sub _ _ => false
+  | Add a b | Mul a b | Div a b | DivCeil a b | Min a b => is_positive a && is_positive b
+  | Max a b => is_positive a || is_positive b
+  | Broadcast _ _ => true
+  end.
+
 (* ---------------------------------------------------- remove_common_factors *)
 Fixpoint collect_mul (e : expr) : list expr :=
   match e with Mul a b => collect_mul a ++ collect_mul b | _ => [e] end.
@@ -280,12 +293,13 @@ Fixpoint remove_first (t : expr) (rs : list expr) : option (list expr) :=
               else match remove_first t r with Some r' => Some (u :: r') | None => None end
   end.
 
-Fixpoint rcf_loop (ls rs : list expr) : list expr * list expr :=
+(* [pg]: only factors known to be positive are cancelled (fix F20) *)
+Fixpoint rcf_loop (pg : bool) (ls rs : list expr) : list expr * list expr :=
   match ls with
   | [] => ([], rs)
-  | t :: ls' => match remove_first t rs with
-                | Some rs' => rcf_loop ls' rs'
-                | None => let p := rcf_loop ls' rs in (t :: fst p, snd p)
+  | t :: ls' => match (if pg && negb (is_positive t) then None else remove_first t rs) with
+                | Some rs' => rcf_loop pg ls' rs'
+                | None => let p := rcf_loop pg ls' rs in (t :: fst p, snd p)
                 end
   end.
 
@@ -312,8 +326,8 @@ Definition gcd_step (ls rs : list expr) : list expr * list expr :=
   | _, _ => (ls, rs)
   end.
 
-Definition remove_common_factors (l r : expr) : expr * expr :=
-  let p := rcf_loop (collect_mul l) (collect_mul r) in
+Definition remove_common_factors (pg : bool) (l r : expr) : expr * expr :=
+  let p := rcf_loop pg (collect_mul l) (collect_mul r) in
   let q := gcd_step (fst p) (snd p) in
   (reduce Mul (Value 1) (fst q), reduce Mul (Value 1) (snd q)).
 
@@ -332,9 +346,12 @@ Definition fold (m : fmode) (z : Z) : fres :=
 Definition fold_div (m : fmode) (x y : Z) (q : Z) : fres :=
   if div_ovf x y then match m with FChecked => FSkip | _ => FPanic end else FV q.
 
-Record cfg := { fm : fmode; guard : bool (* F18 fix: nested divisions *) }.
-Definition cfg_fixed : cfg := {| fm := FChecked; guard := true |}.
-Definition cfg_old (w : bool) : cfg := {| fm := if w then FWrap else FTrap; guard := false |}.
+Record cfg := { fm : fmode;
+                guard : bool (* F18 fix: nested divisions *);
+                posg : bool  (* F20 fix: cancel only positive common factors *) }.
+Definition cfg_fixed : cfg := {| fm := FChecked; guard := true; posg := true |}.
+Definition cfg_old (w : bool) : cfg :=
+  {| fm := if w then FWrap else FTrap; guard := false; posg := false |}.
 
 Definition is_val (e : expr) : option Z := match e with Value z => Some z | _ => None end.
 Definition is_const (e : expr) (c : Z) : bool := match e with Value z => z =? c | _ => false end.
@@ -397,7 +414,7 @@ Definition nest_div (c : cfg) (x c1 c2 : expr) : option expr :=
   end.
 
 Definition simp_div (c : cfg) (l0 r0 : expr) : option expr :=
-  let p := remove_common_factors l0 r0 in
+  let p := remove_common_factors (posg c) l0 r0 in
   let l := fst p in
   let r := snd p in
   if is_const r 1 then Some l
@@ -493,17 +510,6 @@ Definition simplify (e : expr) : expr :=
   match simplify_gen cfg_fixed e with Some x => x | None => e end.
 
 (* ------------------------------------------------------ range, is_positive *)
-Fixpoint is_positive (e : expr) : bool :=
-  match e with
-  | Value x => 0 <=? x
-  | Var _ p => p
-  | Neg _ => false
-  | Sub _ _ => false
-  | Add a b | Mul a b | Div a b | DivCeil a b | Min a b => is_positive a && is_positive b
-  | Max a b => is_positive a || is_positive b
-  | Broadcast _ _ => true
-  end.
-
 Definition clamp32 (z : Z) : Z := Z.max i32_min (Z.min i32_max z).
 
 Definition var_range (p : bool) : Z * Z := if p then (0, i32_max) else (i32_min, i32_max).
@@ -563,7 +569,7 @@ Record case := {
 Definition res_eqb (a b : res) : bool :=
   match a, b with
   | Ok x, Ok y => x =? y
-  | EDivZero, EDivZero | EMissing, EMissing | EOvf, EOvf | EBcast, EBcast => true
+  | EDivZero, EDivZero | EMissing, EMissing | EOvf, EOvf | EBcast, EBcast | EPos, EPos => true
   | _, _ => false
   end.
 Definition oexpr_same (a b : option expr) : bool :=
@@ -601,15 +607,13 @@ Definition prop_one (strict : bool) (c : case) (l : list (N * Z)) : bool :=
   let sg := env_of_list l in
   match eval sg (c_e c) with
   | Ok v =>
-      if bcast_ok sg (c_e c) then
+      if bcast_ok sg (c_e c) && pos_ok sg (c_e c) then
         match c_simp c with
         | Some se => res_eqb (evalm (negb strict) sg se) (Ok v)
         | None => false
         end &&
-        (if pos_ok sg (c_e c) then
-           match c_range c with Some (lo, hi) => (lo <=? v) && (v <=? hi) | None => false end &&
-           match c_pos c with Some true => 0 <=? v | Some false => true | None => false end
-         else true)
+        match c_range c with Some (lo, hi) => (lo <=? v) && (v <=? hi) | None => false end &&
+        match c_pos c with Some true => 0 <=? v | Some false => true | None => false end
       else true
   | _ => true
   end.
